@@ -3,8 +3,11 @@ META = {
     "outside": [
         "misc/mke2fs.c as a whole: PRS option validation, journal / quota / orphan file / root / lost+found / resize inode creation, "
         "-d population, -n, byte-for-byte reproducibility, e2fsck -fn verdict on the produced image (whole tool)",
-        "ext2fs_allocate_tables / ext2fs_allocate_group_table / flexbg_offset and mke2fs packed_allocate_tables (no harness was built: planned "
-        "rung 2 of DESIGN.md not reached in the time box)",
+        "ext2fs_allocate_tables beyond 3 groups x 16 blocks, RAID stride placement (fs->stride != 0), bigalloc, pre-existing table "
+        "locations (resize2fs / e2fsck callers), arbitrary pre-state bitmaps (only superblock/descriptor heads + one bad block); "
+        "mke2fs packed_allocate_tables",
+        "write_inode_tables with metadata_csum (write_reserved_inodes is cut) and the sync_kludge flushes; the zeroing itself "
+        "(ext2fs_zero_blocks2) is a recording stub",
         "ext2fs_initialize beyond 4 groups x 256 blocks; bigalloc; the 'blocks_per_group -= 8' retry for oversized inode requests; "
         "non-zero reserved block count (floating-point recomputation); 4 KiB / 64bit shapes only in the thorough tier",
         "ext2fs_reserve_super_and_bgd2's composition (real marking + real count) is decided piecewise (reserve_sb with a logging bitmap, "
@@ -78,9 +81,16 @@ HARNESSES = [
                 "ext2fs_bg_free_blocks_count_set", "ext2fs_free_blocks_count_add"],
          configs=[dict(FLEX=f, LGPF=l, BPG=16, MAXG=3, NG=ng, ITB=itb, _unwindset=AT_UW(16, 3), _tier=t)
                   for f, l, ng, itb, t in ((1, 0, 3, 2, "quick"), (0, 0, 3, 2, "quick"), (1, 1, 3, 2, "quick"),
-                                           (1, 2, 3, 1, "thorough"), (1, 1, 2, 3, "thorough"), (0, 1, 3, 2, "thorough"))],
-         unwind=4, backends=["kissat", "default"],
-         bound="TBD"),
+                                           (1, 2, 3, 1, "thorough"), (1, 1, 2, 3, "thorough"))],
+         # (FLEX=0, LGPF=1) is NOT registered: s_log_groups_per_flex != 0 without the flex_bg feature is rejected by mke2fs PRS
+         # ("Flex_bg feature not enabled, so flex_bg size may not be specified"); on that input ext2fs_initialize skips the
+         # pre-charge (it keys on s_log_groups_per_flex only) and ext2fs_allocate_group_table never charges (it needs the feature):
+         # free counts end 2 + itb per group too high -- a library-level observation, outside "configurations mke2fs accepts".
+         unwind=4, backends=["kissat"], cap_quick=300,
+         bound="3 (thorough: also 2) groups of 16 blocks behind block 0, last group 8..16 blocks, inode table 2 (1, 3) blocks; "
+               "flex_bg x s_log_groups_per_flex in {(1,0), (0,0), (1,1)} quick, (1,2) thorough; pre-state bitmap: per group "
+               "a head of 0..4 blocks in use + one further block anywhere, accounting invariant of ext2fs_initialize; "
+               "BLOCK_UNINIT flags symbolic; bitmap = set model, block search = specification decided by get_free"),
     dict(name="get_free", src="get_free.c", extra_src=["lib/ext2fs/blknum.c"],
          funcs=["ext2fs_get_free_blocks2"],
          configs=[{"NBLK": 10}],
